@@ -387,7 +387,13 @@ class OutgoingBallsHandler(BallDeviceStateHandler):
         # inform the counter that we are ejecting now
         self.info_log("Ejecting ball to %s", eject_request.target)
         await self._post_ejecting_event(eject_request, eject_try)
-        ball_eject_process = await self.ball_device.ball_count_handler.start_eject()
+        # wait_for_ready_to_receive reserved a slot for us in the target
+        slot_reserved = True
+        try:
+            ball_eject_process = await self.ball_device.ball_count_handler.start_eject()
+        except asyncio.CancelledError:
+            eject_request.target.release_reserved_slot()
+            raise
         try:
             await ball_eject_process.will_eject()
             self.info_log("Wait for ball to leave device")
@@ -425,6 +431,8 @@ class OutgoingBallsHandler(BallDeviceStateHandler):
                 await Util.any(waiters, timeout=timeout)
             except asyncio.TimeoutError:
                 # timeout. ball did not leave. failed
+                slot_reserved = False
+                eject_request.target.release_reserved_slot()
                 await self.ball_device.ball_count_handler.end_eject(ball_eject_process, False)
                 return False
 
@@ -437,6 +445,9 @@ class OutgoingBallsHandler(BallDeviceStateHandler):
             self.ball_device.set_eject_state("ball_left")
             self.info_log("Ball left")
             incoming_ball_at_target = self._add_incoming_ball_to_target(eject_request.target)
+            # the incoming ball blocks the slot in the target from now on
+            slot_reserved = False
+            eject_request.target.release_reserved_slot()
             result = await self._handle_confirm(eject_request, ball_eject_process, incoming_ball_at_target,
                                                 eject_try)
             await self.ball_device.ball_count_handler.end_eject(ball_eject_process, result)
@@ -463,6 +474,8 @@ class OutgoingBallsHandler(BallDeviceStateHandler):
             return result
         except asyncio.CancelledError:
             ball_eject_process.cancel()
+            if slot_reserved:
+                eject_request.target.release_reserved_slot()
             raise
 
     def _add_incoming_ball_to_target(self, target: "BallDevice") -> IncomingBall:
